@@ -44,6 +44,13 @@ static void verif_delete(uint8_t* p) {
   VERIF_POOL_DEL(0) VERIF_POOL_DEL(1) VERIF_POOL_DEL(2) VERIF_POOL_DEL(3) VERIF_POOL_DEL(4) VERIF_POOL_DEL(5) VERIF_POOL_DEL(6) VERIF_POOL_DEL(7)
   VERIF_POOL_DEL(8) VERIF_POOL_DEL(9) VERIF_POOL_DEL(10) VERIF_POOL_DEL(11) VERIF_POOL_DEL(12) VERIF_POOL_DEL(13) VERIF_POOL_DEL(14) VERIF_POOL_DEL(15)
   __CPROVER_assert(found, "operator delete: pointer was not returned by operator new");
+#ifdef VERIF_NEW_POOL_LIFO
+  /* opt-in (gen_defs 'VERIF_NEW_POOL_LIFO'): deleting the most recently allocated block gives it back (stack discipline), the next
+   * operator new returns the same block again. A temporary container that lives for one loop iteration then leaves the
+   * allocation counter unchanged, so paths that ran different numbers of iterations still agree on all heap pointers.
+   * The reused block keeps its old bytes (reads of uninitialised operator-new memory see stale data, not arbitrary data). */
+  if (found && verif_pool_n > 0 && p == verif_blks[verif_pool_n - 1]) { verif_pool_freed[verif_pool_n - 1] = 0; verif_pool_n--; }
+#endif
 }
 #elif defined(VERIF_NEW_BLOCK)
 /* operator new hands out fixed-size blocks (std::string / std::vector storage): a request above the block size is an
